@@ -67,6 +67,18 @@ def run(ck):
         expect_err(S.cmd("verify", "kA", f"pL{j}", "="), f"proof under label hex {lab} verified under 'label'", "label")
     expect_err(S.cmd("verify", "kL0", "pL1", "="), "proof under 'label-v1' verified under 'label-v10' (prefix, longer first used first)", "label-prefix")
     expect_err(S.cmd("verify", "kL1", "pL0", "="), "proof under 'label-v10' verified under 'label-v1'", "label-prefix")
+    # long labels of equal length that differ only after a long common prefix (byte 33, byte 48, last byte of 64),
+    # both used in this one process, in both orders of first use
+    longs = []
+    for ln, pos in ((40, 39), (40, 32), (48, 47), (64, 63), (33, 32), (100, 70)):
+        base = bytes((0x61 + (i % 26)) for i in range(ln))
+        other = bytearray(base); other[pos] ^= 1
+        longs.append((base.hex(), bytes(other).hex(), ln, pos))
+    for j, (la, lb, ln, pos) in enumerate(longs):
+        S.cmd("compile", f"kLa{j}", "pp", la, "A"); S.cmd("prove", f"pLa{j}", f"kLa{j}", "A", 9)
+        S.cmd("compile", f"kLb{j}", "pp", lb, "A"); S.cmd("prove", f"pLb{j}", f"kLb{j}", "A", 9)
+        expect_err(S.cmd("verify", f"kLb{j}", f"pLa{j}", "="), f"{ln}-byte labels differing only at byte {pos}: proof under the first verified under the second", "label-long")
+        expect_err(S.cmd("verify", f"kLa{j}", f"pLb{j}", "="), f"{ln}-byte labels differing only at byte {pos}: proof under the second verified under the first", "label-long")
     # a verifier rebuilt from bytes must bind the label as well
     S.cmd("blobof", "vb1", "verifier", "kL1"); S.cmd("decode", "verifier", "vb1", "kL1r")
     expect_err(S.cmd("verify", "kL1r", "pL0", "="), "proof under 'label-v10' verified by a decoded 'label-v1' verifier", "label-prefix")
@@ -130,7 +142,7 @@ def run(ck):
     if r2[x12].startswith("OK"):
         ck.violation("accepted although the circuits differ: the only public input (value 0) sits on a different row", {"failing_input_found": True, "circuit_proved": z1, "circuit_of_verifier": z2}, key="accepted:zero-pi-row-moved")
     return ck.finish(level="proof",
-        rule="one valid proof with 5 public inputs (one zero): every position x {+1, 0, another position's value}, adjacent transpositions, truncation/extension; near-miss circuits (one selector value, one wire, one constraint more/fewer, one public-input row moved or removed) in both directions; labels differing in one byte or in length, empty, and prefix pairs with the longer label used first (also through a decoded verifier); V3 proofs under V1/V2, proving under V1/V2; checked build, catch_unwind",
+        rule="one valid proof with 5 public inputs (one zero): every position x {+1, 0, another position's value}, adjacent transpositions, truncation/extension; near-miss circuits (one selector value, one wire, one constraint more/fewer, one public-input row moved or removed) in both directions; labels differing in one byte or in length, empty, 33..100-byte labels differing only after a common prefix of 32..70 bytes, and prefix pairs with the longer label used first (also through a decoded verifier); V3 proofs under V1/V2, proving under V1/V2; checked build, catch_unwind",
         assumptions=["acceptance of a mismatched statement needs a Keccak coincidence or one of <= 5n+6 bad evaluation points (C03/C05 theorems); here every explored mismatch must be rejected"],
         checker_cmd=proofgate.CHECKER_CMD, trusted_base=proofgate.TRUSTED)
 
